@@ -57,6 +57,86 @@ def _handler_names(t: ast.Try, tree: ast.AST) -> List[List[str]]:
     return out
 
 
+_PARTIAL_CALLS = {"split_comma_header": "ascii", "int": "int", "float": "float", "b64decode": "base64", "urlsafe_b64decode": "base64"}
+_FIELDS = {"method": "method", "target": "target", "raw_path": "target", "path": "target", "http_version": "version"}
+
+
+def _root(e: ast.AST) -> ast.AST:
+    """`value.lower().strip()` -> `value`; `request.method` stays"""
+    while True:
+        if isinstance(e, ast.Call) and isinstance(e.func, ast.Attribute):
+            e = e.func.value
+        elif isinstance(e, ast.Subscript):
+            e = e.value
+        else:
+            return e
+
+
+def _operand_class(e: ast.AST) -> str:
+    r = _root(e)
+    if isinstance(r, ast.Attribute) and r.attr in _FIELDS:
+        return _FIELDS[r.attr]
+    if isinstance(r, ast.Name):
+        if r.id in ("name", "sanitised_name"):
+            return "headerName"
+        if r.id == "value":
+            return "headerValue"
+        if r.id in _FIELDS:
+            return _FIELDS[r.id]
+    return "unknown:" + ast.unparse(e)
+
+
+def _header_guard(chain: List[ast.AST]) -> str:
+    """the header a `value` belongs to: the innermost enclosing `if <name expr> == "<x>"` / `b"<x>"` (else "*" = any header)"""
+    for n, child in reversed(chain):
+        if isinstance(n, ast.If) and child in n.body:
+            t = n.test
+            if isinstance(t, ast.Compare) and len(t.ops) == 1 and isinstance(t.ops[0], ast.Eq) and isinstance(t.comparators[0], ast.Constant) \
+                    and "name" in ast.unparse(t.left):
+                c = t.comparators[0].value
+                return (c.decode("latin1") if isinstance(c, bytes) else str(c)).lower()
+    return "*"
+
+
+def _decode_sites(fn: ast.AST, where: str, tree: ast.AST) -> List[tuple]:
+    rows: List[tuple] = []
+
+    def visit(n: ast.AST, chain: List[tuple], caught: List[str]) -> None:
+        if isinstance(n, (ast.FunctionDef, ast.AsyncFunctionDef, ast.Lambda)) and n is not fn:
+            return
+        if isinstance(n, ast.Call):
+            site = None
+            if isinstance(n.func, ast.Attribute) and n.func.attr == "decode":
+                codec = "utf-8"
+                if n.args and isinstance(n.args[0], ast.Constant):
+                    codec = str(n.args[0].value)
+                elif n.args or n.keywords:
+                    codec = "?" + ast.unparse(n)
+                site = (n.func.value, codec.lower().replace("_", "-"))
+            else:
+                fname = n.func.attr if isinstance(n.func, ast.Attribute) else (n.func.id if isinstance(n.func, ast.Name) else "")
+                if fname in _PARTIAL_CALLS and n.args:
+                    site = (n.args[0], _PARTIAL_CALLS[fname])
+            if site is not None:
+                cls = _operand_class(site[0])
+                rows.append((where, cls, _header_guard(chain) if cls == "headerValue" else "", site[1], list(caught)))
+        if isinstance(n, ast.Try):
+            names = [x for h in _handler_names(n, tree) for x in h]
+            for s in n.body:
+                visit(s, chain + [(n, s)], caught + names)
+            for part in (n.handlers, n.orelse, n.finalbody):
+                for s in part:
+                    visit(s, chain + [(n, s)], caught)
+            return
+        for c in ast.iter_child_nodes(n):
+            top = c
+            visit(c, chain + [(n, top)], caught)
+
+    visit(fn, [], [])
+    return rows
+
+
+
 def run(src: Path, x) -> str:
     q, fail, parse, find_def, fold = x.q, x.fail, x.parse, x.find_def, x.fold
     out = ["/- GENERATED by tools/extract.py (tools/extract_c04.py) — C04: exception classes caught per `try` site of the",
@@ -261,6 +341,24 @@ def run(src: Path, x) -> str:
             emit(f"def wsAcceptStateFirst : Bool := {'true' if (ia is not None and ia < isend) else 'false'}   -- `self.state = CONNECTED` precedes `await self.send(Response(…))` in _accept")
     except Exception as e:
         fail("c04 ws answer order", str(e))
+
+    # HTTP/1 reader path: every call that turns client-controlled bytes into text / numbers (`.decode(...)`, `split_comma_header`,
+    # `int(...)`, base64) in the functions that run inside `H11Protocol._handle_events` before a stream object takes over, with the
+    # codec, what it is applied to (request line field / header name / value of which header) and what the enclosing `try`s catch.
+    try:
+        rows = []
+        for cls, fname in (("H11Protocol", "_handle_events"), ("H11Protocol", "_create_stream"), ("H11Protocol", "_check_protocol"),
+                           ("H2CProtocolRequiredError", "__init__")):
+            fn = find_def(h11, cls, fname)
+            if fn is None:
+                fail("c04 h11 decode sites", f"protocol/h11.py:{cls}.{fname} not found")
+                continue
+            rows += _decode_sites(fn, f"{cls}.{fname}", h11)
+        emit("/-- (function, operand class, header the value belongs to or \"*\", codec / partial function, classes caught around it) -/")
+        emit("def h11ReaderDecodes : List (String × String × String × String × List String) := [\n" + ",\n".join(
+            f"  ({q(a)}, {q(b)}, {q(c)}, {q(d)}, [" + ", ".join(q(n) for n in e) + "])" for a, b, c, d, e in rows) + "]")
+    except Exception as e:
+        fail("c04 h11 decode sites", str(e))
 
     # class hierarchy of the exceptions involved, from the installed libraries
     try:
